@@ -3,5 +3,5 @@ CONSTANTS Shards = {s1, s2} NR = 2 MaxBulk = 2 SizeSet = {2} MaxFaults = 2 MaxTr
   Pages <- PagesAll Lag = FALSE Seals = FALSE Shuffles = {FALSE} Mut = "nodedup"
 SYMMETRY Sym
 CONSTRAINT StopAfterLastSearch
-INVARIANTS TypeOK AckedEverywhereNeeded SearchSeesAcked NoDuplicates HonestPartial
+INVARIANTS TypeOK NoDuplicates AckedEverywhereNeeded SearchSeesAcked HonestPartial
 PROPERTIES Durable
